@@ -74,6 +74,7 @@ type coroutine struct {
 	yield   chan coMsg
 	done    bool
 	started bool
+	stopped bool
 	seq     value
 	fr      *frame
 }
@@ -108,9 +109,13 @@ func (c *coroutine) run() {
 	i := c.i
 	// yield func(V) bool : a host-implemented function value
 	yieldFn := &hostFunc{fn: func(fr *frame, args []value) value {
+		if c.stopped {
+			return false // as iter.Pull's yield does once stopped
+		}
 		c.yield <- coMsg{v: args[0], ok: true}
 		if !<-c.resume {
-			panic(coKill{})
+			c.stopped = true
+			return false
 		}
 		return true
 	}}
